@@ -29,7 +29,7 @@ def set_items(n, m):
     return list(itertools.product(per_target, repeat=n))
 
 
-SPELL = [lambda f: f, lambda f: "./" + f, lambda f: f"{WD}/{f}", lambda f: f"{WD}/d/../{f}"]
+SPELL = [lambda f: f, lambda f: "./" + f, lambda f: f"{WD}/{f}", lambda f: f"{WD}/d/../{f}", lambda f: "d/../" + f, lambda f: f"../{os.path.basename(WD)}/{f}", lambda f: "d//..//" + f]
 
 
 def eval_set(tset, existing, order, spell_off=0):
@@ -307,7 +307,7 @@ def run(ctx):
     import mc.checks.c04 as me
 
     quick = ctx.tier == "quick"
-    ctx.pmap(me, "sets_batch", set_items(3, 2), m=2, spell_offs=(0, 1, 2))
+    ctx.pmap(me, "sets_batch", set_items(3, 2), m=2, spell_offs=(0, 1, 2, 3, 4, 5))
     if not quick:
         ctx.pmap(me, "sets_batch", set_items(3, 3), m=3, spell_offs=(0,))
         ctx.pmap(me, "sets_batch", set_items(4, 2), m=2, spell_offs=(0,))
